@@ -733,6 +733,52 @@ func digitLoopOrder(P *Program, fn *ssa.Function, isDecimal func(ssa.Value) bool
 			classify(ph.Edges[k], 0)
 		}
 	}
+	if nAcc == 0 && other == "" {
+		// the label accumulated in a strings.Builder: it only ever grows at its end, so each
+		// trip appends; every write in the loop must be a digit of the number, and the
+		// function must return that builder's String()
+		var builder ssa.Value
+		okWrites, nWrites := true, 0
+		eachInstr(fn, func(b *ssa.BasicBlock, _ int, in ssa.Instruction) {
+			call, ok := in.(*ssa.Call)
+			if !ok {
+				return
+			}
+			sc := call.Call.StaticCallee()
+			if sc == nil || sc.Pkg == nil || sc.Pkg.Pkg.Path() != "strings" || sc.Signature.Recv() == nil || !isNamed(sc.Signature.Recv().Type(), "strings", "Builder") {
+				return
+			}
+			recv := call.Call.Args[0]
+			switch sc.Name() {
+			case "WriteRune", "WriteString", "WriteByte":
+				if builder != nil && builder != recv {
+					okWrites = false
+				}
+				builder = recv
+				if H.Dominates(b) && blockReaches(b, H) {
+					nWrites++
+					if !digitish(call.Call.Args[1], 0) {
+						okWrites = false
+					}
+				} else {
+					okWrites = false // something else is written into the label
+				}
+			}
+		})
+		returnsIt := false
+		eachInstr(fn, func(_ *ssa.BasicBlock, _ int, in ssa.Instruction) {
+			if r, ok := in.(*ssa.Return); ok && len(r.Results) == 1 {
+				if call, ok := r.Results[0].(*ssa.Call); ok {
+					if sc := call.Call.StaticCallee(); sc != nil && sc.Name() == "String" && len(call.Call.Args) == 1 && call.Call.Args[0] == builder {
+						returnsIt = true
+					}
+				}
+			}
+		})
+		if builder != nil && okWrites && nWrites > 0 && returnsIt {
+			nAcc, appendSeen = 1, true
+		}
+	}
 	if nAcc != 1 || other != "" {
 		if other == "" {
 			other = fmt.Sprintf("%d strings are carried round the loop where one accumulated label is expected", nAcc)
@@ -896,4 +942,206 @@ func c12R7(c *Ctx) {
 			})
 		}
 	}
+}
+
+// c12R9: how a link number gets into the buffer that SelectLink's caller
+// parses. (i) The branch of Update that takes digits is guarded by exactly
+// '0' <= input <= '9' — a number such as 10 cannot be typed without the 0.
+// (ii) On every path through that branch the mode stored is `selection`, and
+// the buffer stored is string(input) appended to "" where the mode was not
+// selection before (whatever the buffer held — in opening mode it holds the
+// link being opened), and to the buffer itself where it was.
+func c12R9(c *Ctx) {
+	P := c.P
+	upd := P.Method("servitor/ui", "State", "Update")
+	input := upd.Params[1]
+	fname := FuncName(upd)
+	selK, ok := P.Package("servitor/ui").Types.Scope().Lookup("selection").(*types.Const)
+	if !ok {
+		c.bad(fname+"/digits", P.Pos(upd.Pos()), fname, "the mode constant selection is not found")
+		return
+	}
+	sel, _ := constant.Int64Val(selK.Val())
+	modeF := P.Field("servitor/ui", "State", "mode")
+	// (i) the guard
+	var D *ssa.BasicBlock
+	var Ds []*ssa.BasicBlock
+	var at ssa.Instruction
+	lo, hi := int64(-1), int64(-1)
+	okRange := true
+	bound := func(cmp Cmp) (isLower bool, k int64, ok bool) {
+		x, y, op := cmp.X, cmp.Y, cmp.Op
+		if unwrapLoad(y) == ssa.Value(input) {
+			x, y, op = y, x, flipOp(op)
+		}
+		if unwrapLoad(x) != ssa.Value(input) {
+			return false, 0, false
+		}
+		k, isC := constInt(y)
+		if !isC {
+			return false, 0, false
+		}
+		switch op {
+		case token.GEQ:
+			return true, k, true
+		case token.GTR:
+			return true, k + 1, true
+		case token.LEQ:
+			return false, k, true
+		case token.LSS:
+			return false, k - 1, true
+		}
+		return false, 0, false
+	}
+	for _, b := range upd.Blocks {
+		iff, isIf := b.Instrs[len(b.Instrs)-1].(*ssa.If)
+		if !isIf {
+			continue
+		}
+		f := Fact{Cond: iff.Cond, Truth: true}
+		cmp, isCmp := f.Cmp()
+		if !isCmp {
+			continue
+		}
+		isLower, k, okB := bound(cmp)
+		if !okB || k < 32 || k > 70 {
+			continue
+		}
+		// the other bound among the facts in front of this test
+		for _, g := range factsOf(upd).At(b) {
+			gc, isCmp := g.Cmp()
+			if !isCmp {
+				continue
+			}
+			l2, k2, ok2 := bound(gc)
+			if !ok2 || l2 == isLower || k2 < 32 || k2 > 70 {
+				continue
+			}
+			if isLower {
+				lo, hi = k, k2
+			} else {
+				lo, hi = k2, k
+			}
+			if lo != '0' || hi != '9' {
+				okRange = false
+			}
+			D, at = b.Succs[0], iff
+			Ds = append(Ds, D)
+		}
+	}
+	if D == nil {
+		c.bad(fname+"/digits", P.Pos(upd.Pos()), fname, "the branch of Update that takes the digits of a link number (a range test on the key) is not found")
+		return
+	}
+	c.check(okRange && lo == '0' && hi == '9', fname+"/digits", P.InstrPos(at), fname, "digits are the keys '0' to '9'",
+		fmt.Sprintf("the keys taken as digits of a link number are %q to %q, not '0' to '9': numbers that contain the missing digits are shown next to links but cannot be typed", rune(lo), rune(hi)))
+	// (ii) what the branch does
+	n := 0
+	modeFact := func(facts []Fact) (wasSelection, known bool) {
+		for _, f := range facts {
+			fc, ok := f.Cmp()
+			if !ok {
+				continue
+			}
+			for _, side := range [][2]ssa.Value{{fc.X, fc.Y}, {fc.Y, fc.X}} {
+				ld, ok := side[0].(*ssa.UnOp)
+				if !ok || ld.Op != token.MUL {
+					continue
+				}
+				fa, ok := ld.X.(*ssa.FieldAddr)
+				k, isK := constInt(side[1])
+				if !ok || !isK || fieldOf(fa) != modeF {
+					continue
+				}
+				if k == sel {
+					known = true
+					wasSelection = fc.Op == token.EQL
+				} else if fc.Op == token.EQL {
+					known, wasSelection = true, false // the mode is known to be another one
+				}
+			}
+		}
+		return
+	}
+	for _, D := range Ds {
+		domSel, domKnown := modeFact(factsOf(upd).At(D))
+		// a store to the mode on the way here (`s.mode = normal` before the plain keymap is tried again) decides over older tests
+		var doms []*ssa.BasicBlock
+		for _, b := range upd.Blocks {
+			if b != D && b.Dominates(D) {
+				doms = append(doms, b)
+			}
+		}
+		sort.Slice(doms, func(i, j int) bool { return doms[i] != doms[j] && doms[i].Dominates(doms[j]) }) // a chain: outermost first
+		for _, b := range doms {
+			for _, in := range b.Instrs {
+				st, ok := in.(*ssa.Store)
+				if !ok {
+					continue
+				}
+				if fa, ok := st.Addr.(*ssa.FieldAddr); ok && fieldOf(fa) == modeF {
+					if k, isK := constInt(st.Val); isK {
+						domKnown, domSel = true, k == sel
+					} else {
+						domKnown = false
+					}
+				}
+			}
+		}
+		for _, rb := range upd.Blocks {
+			ret, isRet := rb.Instrs[len(rb.Instrs)-1].(*ssa.Return)
+			if !isRet || !blockReaches(D, rb) && rb != D {
+				continue // (a return shared with other branches is still where this one ends)
+			}
+			paths, _ := enumeratePathsFrom(upd, D, rb, 64)
+			if rb == D {
+				paths = []pathFacts{{blocks: []*ssa.BasicBlock{D}}}
+			}
+			for _, pf := range paths {
+				e := effectOnPath(P, upd, pf, ret)
+				n++
+				where := "path through lines " + pathLines(P, pf)
+				wasSelection, known := domSel, domKnown
+				if ws, kn := modeFact(pf.facts); kn {
+					wasSelection, known = ws, kn
+				}
+				mv, wroteMode := e.stored["mode"]
+				okMode := false
+				if wroteMode {
+					if k, isK := constInt(mv); isK && k == sel {
+						okMode = true
+					}
+				} else if known && wasSelection {
+					okMode = true
+				}
+				c.check(okMode, fname+"/digit-mode", P.InstrPos(ret), fname, "the mode is selection after a digit ("+where+")", "after a digit the mode is not known to be selection: the number being typed is not what '.' or Enter will look up ("+where+")")
+				okBuf, why := false, "the buffer is not extended by the digit"
+				if bv, wrote := e.stored["buffer"]; wrote {
+					if cv, isCv := e.lc.at(bv).(*ssa.Convert); isCv && unwrapLoad(cv.X) == ssa.Value(input) {
+						// the digit alone: a fresh number
+						okBuf = !(known && wasSelection)
+						why = "the number typed so far is thrown away by a digit typed in selection mode"
+					}
+					if add, isAdd := e.lc.at(bv).(*ssa.BinOp); isAdd && add.Op == token.ADD {
+						digit := false
+						if cv, isCv := add.Y.(*ssa.Convert); isCv && unwrapLoad(cv.X) == ssa.Value(input) {
+							digit = true
+						}
+						base := e.lc.at(add.X)
+						if s, isS := constString(base); isS && s == "" && digit {
+							okBuf = !(known && wasSelection) // a fresh number
+							why = "the number typed so far is thrown away by a digit typed in selection mode"
+						} else if ld, isLd := base.(*ssa.UnOp); isLd && ld.Op == token.MUL && digit {
+							if f, ok := recvField(upd, ld.X); ok && f == "buffer" {
+								okBuf = known && wasSelection
+								why = "a digit typed outside selection mode is appended to whatever the buffer holds (in opening mode: the link that is being opened) instead of starting a number"
+							}
+						}
+					}
+				}
+				c.check(okBuf, fname+"/digit-buffer", P.InstrPos(ret), fname, "the digit starts a number outside selection mode and extends it inside ("+where+")", why+" ("+where+")")
+			}
+		}
+	}
+	c.check(n > 0, fname+"/digit-paths", P.InstrPos(at), fname, fmt.Sprintf("%d paths through the digit branch", n), "no path through the digit branch could be followed")
 }
